@@ -70,6 +70,8 @@ class Profile:
     calls_in_for_list: bool = False                 # known finding F-C06-a (ra clobbered inside the for-list body subroutine)
     max_globals: int = 4
     call_heavy: bool = False                        # more nested calls and early returns (C06 / C01 call paths)
+    return_in_loops: bool = False                   # functions whose loop bodies end in a conditional return
+    tco_safe: bool = False                          # tail calls only in functions with no other call and no early return (F-C02-a family)
     global_writes: bool = True                      # functions assign module-level variables (`global g`)
     loopctl_heavy: bool = False                     # many break / continue / dead loops (C05 loop-label paths)
     dead_loops: bool = True                         # `while False:` blocks (disabled code)
@@ -578,6 +580,10 @@ class Gen:
                     sc.loopvars_int.append((lv, idx_ok))
                 sc.loop_kind.append("for")
                 body = self.block(sc, depth + 1, in_func_ret=in_func_ret)
+                if self.p.return_in_loops and sc.is_func and in_func_ret is not None and self.allow_early_return and r.random() < 0.5:
+                    self.feat("return_at_end_of_loop_body")
+                    rv = [("ret", self.expr(sc, 1, allow_call=False))] if in_func_ret else [("ret", None)]
+                    body.append(("ite", self.bool_expr(sc, 1), rv, []))
                 sc.loop_kind.pop()
                 sc.loopvars.remove(lv)
                 if idx_ok:
@@ -643,10 +649,30 @@ class Gen:
         sc = Scope(is_func=True, params=params)
         sc.loopvars_int = []
         self.cur_func_index = idx
-        ends_with_call = r.random() < 0.25 and idx + 1 < len(self.func_names)
+        ends_with_call = r.random() < (0.5 if self.p.tco_safe else 0.25) and idx + 1 < len(self.func_names)
         self.allow_early_return = self.p.early_return_in_tail_caller or not ends_with_call
-        body = self.block(sc, 0, n=r.randrange(1, 4), in_func_ret=returns)
-        if ends_with_call:
+        save_functions = self.p.functions
+        if self.p.tco_safe and ends_with_call:
+            self.p.functions = False          # the only call of this function is its tail call
+        try:
+            body = self.block(sc, 0, n=r.randrange(1, 4), in_func_ret=returns)
+        finally:
+            self.p.functions = save_functions
+        if self.p.tco_safe and not ends_with_call and not returns and body and body[-1][0] == "expr":
+            body.append(self.write_stmt(sc))   # a function whose last statement happens to be a call would be tail-call optimised too
+        if ends_with_call and self.p.tco_safe:
+            # tail call only to a callee with the same "returns a value" status (F-C02-b: value left on the stack otherwise)
+            lo = idx + 1
+            cands = [f for f in self.funcs[lo:] if f["returns"] == returns]
+            if cands:
+                f = r.choice(cands)
+                args = [self.expr(sc, 1, allow_call=False) for _ in f["params"]]
+                self.calls_of[f["name"]] = self.calls_of.get(f["name"], 0) + 1
+                self.feat("tail_call")
+                body.append(("ret", ("call", f["name"], args)) if returns else ("expr", ("call", f["name"], args)))
+            elif returns:
+                body.append(("ret", self.expr(sc, 1, allow_call=False)))
+        elif ends_with_call:
             c = self.call_expr(sc, 1, need_value=False)
             if c:
                 if returns and self.funcs[idx + 1:] and any(f["returns"] for f in self.funcs[idx + 1:]):
@@ -661,6 +687,25 @@ class Gen:
                 body.append(("ret", self.expr(sc, 1, allow_call=False)))
         elif returns:
             body.append(("ret", self.expr(sc, 1, allow_call=False)))
+        if self.p.return_in_loops and not ends_with_call and self.p.for_range and r.random() < 0.4:
+            # the function ends in a loop whose body ends in a (conditional) return
+            lv = self.fresh("i")
+            sc.loopvars.append(lv)
+            sc.in_loop += 1
+            sc.loop_kind.append("for")
+            lb = self.block(sc, 1, n=1, in_func_ret=returns)
+            cond = self.bool_expr(sc, 1)
+            rv = [("ret", self.expr(sc, 1, allow_call=False))] if returns else [("ret", None)]
+            lb.append(("ite", cond, rv, []) if r.random() < 0.7 else ("ite", cond, [self.write_stmt(sc)], rv))
+            sc.loop_kind.pop()
+            sc.in_loop -= 1
+            sc.loopvars.remove(lv)
+            loop = ("forRange", False, lv, ("num", 0.0), ("num", float(r.choice([2, 3, 4]))), ("num", 1.0), lb, {"nargs": 1})
+            if returns and body and body[-1][0] == "ret":
+                body.insert(len(body) - 1, loop)
+            else:
+                body.append(loop)
+            self.feat("function_ends_in_loop_with_return")
         self.cur_func_index = None
         return {"name": name, "params": params, "body": body, "returns": returns}
 
